@@ -49,6 +49,13 @@ def sspocUpdateSensorsGuard (fitted : Bool) (v : PyArg) (thrNone : Bool) (nFeat 
     | .other => .raises .valueError
     | .int z => if z < 0 then .raises .valueError else if z > nFeat then .raises .valueError else .ok
 
+/-- `SSPOR._validate_n_sensors` (run inside every fit): a count that was never chosen follows the data; an explicit one that
+exceeds the number of sensors is an error – whatever the optimizer (the CCQR advice is only a warning) -/
+def validateNSensorsGuard (fitted nsNone defaulted : Bool) (ns maxS : Int) : Outcome :=
+  if !fitted then .raises .notFitted
+  else if nsNone || defaulted then .ok
+  else if ns > maxS then .raises .valueError else .ok
+
 /-- the box guards with the four comparisons as booleans -/
 def boxGuardB (nSensors : Nat) (sensorsAreInts xBad yBad nxInt nyInt : Bool) : Outcome :=
   if nSensors = 0 then .raises .valueError
@@ -129,6 +136,11 @@ def Pre_ssporSetN (env : GEnv) : Prop := 0 ≤ env.nat "len(self.ranked_sensors_
 def Spec_ssporSetN (env : GEnv) : GOut :=
   (ssporSetNGuard (env.flag "self.ranked_sensors_") (env.nat "len(self.ranked_sensors_)").toNat (env.var "n_sensors")).toG
 
+def Pre_ssporValidateNSensors (_ : GEnv) : Prop := True
+def Spec_ssporValidateNSensors (env : GEnv) : GOut :=
+  (validateNSensorsGuard (env.flag "self.basis_matrix_") (env.flag "self.n_sensors is None")
+    (env.flag "getattr(self, '_n_sensors_defaulted', False)") (env.nat "self.n_sensors") (env.nat "max_sensors")).toG
+
 def Pre_ssporUpdateModes (_ : GEnv) : Prop := True
 def Spec_ssporUpdateModes (env : GEnv) : GOut :=
   (updateModesGuard (env.var "n_basis_modes") (env.flag "hasattr(self.basis, 'basis_matrix_')")
@@ -169,7 +181,7 @@ def Spec_boxGuard (env : GEnv) : GOut :=
 /-- closing script of the generated theorems (after the count-like arguments were case-split) -/
 macro "guard_finish" : tactic => `(tactic| (
   simp [basisRep, basisCtor, identityFit, validateInput, ccqrCtor, ccqrFit, gqrOption, boxGuardB, ssporCtorGuard,
-    ssporSetNGuard, updateModesGuard, sspocUpdateSensorsGuard, CmpOp.eval, InstKind.holds, PyArg.int?, PyArg.integral?,
+    ssporSetNGuard, updateModesGuard, sspocUpdateSensorsGuard, validateNSensorsGuard, CmpOp.eval, InstKind.holds, PyArg.int?, PyArg.integral?,
     PyArg.builtinInt?, PyArg.toCount, Outcome.toG] <;>
   (try (repeat' split)) <;> (try simp_all) <;> (try grind)))
 
